@@ -20,7 +20,10 @@ def harmless():
     no check may answer VIOLATION on them (OK or UNDECIDED are both acceptable)."""
     import glob
     bad = 0
+    only = [a for a in sys.argv[1:] if not a.startswith("--")]
     for d in sorted(glob.glob(os.path.join(ROOT, "selftest", "harmless", "*.diff"))):
+        if only and not any(os.path.basename(d).startswith(o) for o in only):
+            continue
         text = open(d).read()
         props = sorted({p for f, ps in FILE_PROPS if f in text for p in ps})
         tmp = tempfile.mkdtemp(prefix="vx-harmless-", dir="/tmp")
